@@ -26,6 +26,8 @@ struct access {
     template <class AMG, class F> static void for_levels(const AMG &a, F f) {
         for (auto &l : a.levels) f(l.rows(), l.A.get(), static_cast<bool>(l.solve), static_cast<bool>(l.relax), static_cast<bool>(l.P));
     }
+    // f(level object): members A, relax, t, ... are read by the caller
+    template <class AMG, class F> static void for_level_objects(const AMG &a, F f) { for (auto &l : a.levels) f(l); }
 };
 } // namespace amgcl_verif
 
@@ -140,6 +142,10 @@ inline void gen_component_params(Tape &t, AmgCfg &c, bool c02_domain) {
     if (t.chance(1, 2)) { c.set_ilut = true; static const double pp[] = {2, 1, 4}; static const double ta[] = {1e-2, 1e-1, 1e-4}; c.ilut_p = pp[t.pick(3)]; c.ilut_tau = ta[t.pick(3)]; }
     if (t.chance(1, 2)) { c.set_cheb = true; c.cheb_degree = static_cast<int>(t.u(1, 6)); static const double lo[] = {1.0 / 30, 0.1, 0.25, 0.02}; c.cheb_lower = lo[t.pick(4)]; c.cheb_scale = t.b(); }
     if (t.chance(1, 3)) { c.set_serial = true; c.serial = t.b(); }
+    // Cost guard, not a domain restriction of the library: when coarsening stalls (n -> n-1 per level) a hierarchy has
+    // hundreds of levels and a W-cycle costs ncycle^(levels-1) coarse visits; bound the depth so that a case terminates.
+    if (c.ncycle >= 2 && c.max_levels > 10) c.max_levels = 10;
+    else if (c.max_levels > 40) c.max_levels = 40;
 }
 
 typedef amgcl::backend::builtin<double> Backend;
@@ -154,11 +160,13 @@ template <class AMG> LevelInfo level_info(const AMG &a) {
 
 // Known finding F-emin (NaN part).  smoothed_aggr_emin filters the weak connections of A into the diagonal (A_f) and
 // computes for every aggregate c the damping  omega_c = (A_f P_c, A_f D^-1 A_f P_c) / ||A_f D^-1 A_f P_c||^2  without a
-// guard: when an aggregate is a whole connected component of A_f whose rows sum to zero (weak links and no diagonal
-// shift) the column A_f P_c vanishes and omega_c = 0/0 = NaN; likewise a vanishing filtered diagonal is inverted
-// (smoothed_aggregation guards exactly this with `if (!is_zero(dia))`).  The predicate below re-derives that condition
-// from the level matrices with the library's own public aggregation routine; eps_strong is halved after every level
-// as in the coarsening object.  Returns an empty string when no level is degenerate.
+// guard.  When an aggregate is a whole connected component of A_f whose rows sum to zero (all links to the outside are
+// weak and its nodes carry no diagonal shift) the column A_f P_c vanishes in exact arithmetic and omega_c = 0/0: in
+// floating point the column holds rounding residues (or exact zeros), and omega_c becomes NaN (observed) or an arbitrary
+// huge number.  smoothed_aggregation has no such quotient and guards its only division (`if (!is_zero(dia))`).
+// The predicate re-derives the condition from the level matrices with the library's own public aggregation routine
+// (eps_strong is halved after every level as in the coarsening object): an aggregate c is degenerate when
+// max_i |(A_f P_tent)(i,c)| <= 1e-12 * max_{i in c} a_ii.  Returns an empty string when no level is degenerate.
 template <class AMG> std::string emin_degenerate(const AMG &a, double eps_strong) {
     std::string why; float eps = static_cast<float>(eps_strong); int lvl = 0;
     amgcl_verif::access::for_levels(a, [&](size_t, const amgcl::backend::crs<double> *A, bool, bool, bool hasP) {
@@ -168,13 +176,12 @@ template <class AMG> std::string emin_degenerate(const AMG &a, double eps_strong
         size_t nc = 0; std::vector<ptrdiff_t> id; std::vector<char> strong;
         try { amgcl::coarsening::plain_aggregates ag(*A, ap); nc = ag.count; id = ag.id; strong = ag.strong_connection; }
         catch (const amgcl::error::empty_level &) { ++lvl; return; }
-        // column c of A_f P_tent: sum over the members j of aggregate c of A_f(:, j); A_f(i,i) = a_ii + weak off-diagonals
-        std::vector<char> colnz(nc, 0);
+        std::vector<double> colmax(nc, 0.0), diamax(nc, 0.0);
         for (size_t i = 0; i < A->nrows; ++i) {
-            double D = 0;
-            for (ptrdiff_t j = A->ptr[i]; j < A->ptr[i + 1]; ++j) if (static_cast<size_t>(A->col[j]) == i || !strong[j]) D += A->val[j];
-            if (D == 0 && id[i] >= 0) { std::ostringstream os; os << "level " << lvl << ": filtered diagonal of row " << i << " is zero"; why = os.str(); }
-            // row i of A_f P_tent, accumulated per aggregate in the storage order used by the library (sorted rows)
+            double D = 0, aii = 0;
+            for (ptrdiff_t j = A->ptr[i]; j < A->ptr[i + 1]; ++j) { if (static_cast<size_t>(A->col[j]) == i) aii = A->val[j]; if (static_cast<size_t>(A->col[j]) == i || !strong[j]) D += A->val[j]; }
+            if (id[i] >= 0) diamax[id[i]] = std::max(diamax[id[i]], std::abs(aii));
+            // row i of A_f P_tent (P_tent(j, id[j]) = 1), accumulated per aggregate
             std::vector<std::pair<ptrdiff_t, double>> acc;
             for (ptrdiff_t j = A->ptr[i]; j < A->ptr[i + 1]; ++j) {
                 size_t c = static_cast<size_t>(A->col[j]);
@@ -184,17 +191,78 @@ template <class AMG> std::string emin_degenerate(const AMG &a, double eps_strong
                 for (auto &kv : acc) if (kv.first == id[c]) { kv.second += v; found = true; }
                 if (!found) acc.push_back(std::make_pair(id[c], v));
             }
-            for (auto &kv : acc) if (kv.second != 0) colnz[kv.first] = 1;
+            for (auto &kv : acc) colmax[kv.first] = std::max(colmax[kv.first], std::abs(kv.second));
         }
-        for (size_t cidx = 0; cidx < nc && why.empty(); ++cidx) if (!colnz[cidx]) { std::ostringstream os; os << "level " << lvl << ": aggregate " << cidx << " has a vanishing column in A_f*P_tent (omega = 0/0)"; why = os.str(); }
+        for (size_t cidx = 0; cidx < nc && why.empty(); ++cidx)
+            if (colmax[cidx] <= 1e-12 * diamax[cidx]) { std::ostringstream os; os << "level " << lvl << ": aggregate " << cidx << " is an isolated zero-row-sum block of the filtered matrix, max|A_f P_tent(:,c)| = " << colmax[cidx] << " (omega = 0/0)"; why = os.str(); }
+        // (b) a vanishing or negative filtered diagonal that is actually inverted: the row belongs to an aggregate or its
+        // column is referenced by a strong entry of another row (possible for non-symmetric or non-M coarse operators only)
+        if (why.empty()) {
+            std::vector<char> referenced(A->nrows, 0);
+            for (size_t i = 0; i < A->nrows; ++i) for (ptrdiff_t j = A->ptr[i]; j < A->ptr[i + 1]; ++j) if (static_cast<size_t>(A->col[j]) != i && strong[j]) referenced[A->col[j]] = 1;
+            for (size_t i = 0; i < A->nrows && why.empty(); ++i) {
+                double D = 0, aii = 0;
+                for (ptrdiff_t j = A->ptr[i]; j < A->ptr[i + 1]; ++j) { if (static_cast<size_t>(A->col[j]) == i) aii = A->val[j]; if (static_cast<size_t>(A->col[j]) == i || !strong[j]) D += A->val[j]; }
+                if ((id[i] >= 0 || referenced[i]) && !(D > 1e-12 * std::abs(aii))) { std::ostringstream os; os << "level " << lvl << ": filtered diagonal of row " << i << " is " << D << " (a_ii = " << aii << ") and is inverted"; why = os.str(); }
+            }
+        }
         eps *= 0.5f; ++lvl;
     });
     return why;
 }
 
+// Known finding F-rs-abseps.  ruge_stuben compares matrix entries with the ABSOLUTE constant eps = 2*DBL_EPSILON
+// (connect(): a row whose most negative off-diagonal is above -eps gets no strong connections; interpolation: sums of
+// off-diagonals are tested with "> eps"), so a hierarchy is not equivariant under scaling of A once an off-diagonal of
+// some level comes within reach of 4.4e-16.  Returns the smallest |off-diagonal| * min(1, s) over all coarsened levels
+// (the two hierarchies are exact scaled copies of each other down to the first level where a threshold is crossed).
+template <class AMG> double rs_min_offdiag(const AMG &a, double s) {
+    double m = 1e300;
+    amgcl_verif::access::for_levels(a, [&](size_t, const amgcl::backend::crs<double> *A, bool, bool, bool hasP) {
+        if (!A || !hasP) return;
+        for (size_t i = 0; i < A->nrows; ++i) for (ptrdiff_t j = A->ptr[i]; j < A->ptr[i + 1]; ++j)
+            if (static_cast<size_t>(A->col[j]) != i && A->val[j] != 0) m = std::min(m, std::abs(A->val[j]) * std::min(1.0, s));
+    });
+    return m;
+}
+
 // ---------------------------------------------------------------- dense helpers
 typedef Eigen::MatrixXd Mat;
 typedef Eigen::VectorXd Vec;
+
+// Known finding F-smoother-coarse.  The premise of C02 (diagonally dominant M-matrix) holds on the finest level only:
+// the coarse operators of smoothed aggregation / emin / Ruge-Stuben are SPD but in general neither M-matrices nor
+// diagonally dominant, and the point smoothers with a fixed damping (damped Jacobi, SPAI-0) and the incomplete
+// factorisations (ILU0/ILUK/ILUP: negative pivots, indefinite LU) are not guaranteed to converge on them.
+// For every level below the finest one that carries a smoother the function extracts the smoother N_l (one pre-sweep
+// from a zero guess, column by column, through the level's own relaxation object) and returns the largest spectral
+// radius of I - N_l A_l; a value >= 1 means the smoother alone diverges on that level (Gauss-Seidel cannot, skipped).
+template <class AMG> double worst_coarse_smoother_rho(const AMG &a, int *which_level = nullptr) {
+    double worst = 0; int idx = 0;
+    amgcl_verif::access::for_level_objects(a, [&](const auto &l) {
+        int me = idx++;
+        if (me == 0 || !l.relax || !l.A) return;
+        const ptrdiff_t m = static_cast<ptrdiff_t>(l.rows());
+        if (m == 0) return;
+        amgcl::backend::numa_vector<double> e(m), x(m), tmp(m);
+        for (ptrdiff_t i = 0; i < m; ++i) e[i] = 0;
+        Mat N(m, m), Al = Mat::Zero(m, m);
+        for (ptrdiff_t j = 0; j < m; ++j) {
+            e[j] = 1; for (ptrdiff_t i = 0; i < m; ++i) { x[i] = 0; tmp[i] = 0; }
+            l.relax->apply_pre(*l.A, e, x, tmp);
+            e[j] = 0;
+            for (ptrdiff_t i = 0; i < m; ++i) N(i, j) = x[i];
+        }
+        for (ptrdiff_t i = 0; i < m; ++i) for (ptrdiff_t j = l.A->ptr[i]; j < l.A->ptr[i + 1]; ++j) Al(i, l.A->col[j]) += l.A->val[j];
+        Mat E = Mat::Identity(m, m) - N * Al;
+        double r = 0;
+        bool fin = true; for (ptrdiff_t i = 0; i < E.size(); ++i) fin = fin && std::isfinite(E.data()[i]);
+        if (!fin) r = 1e300;
+        else { Eigen::EigenSolver<Mat> es(E, false); for (ptrdiff_t i = 0; i < m; ++i) r = std::max(r, std::abs(es.eigenvalues()[i])); }
+        if (r > worst) { worst = r; if (which_level) *which_level = me; }
+    });
+    return worst;
+}
 
 inline Mat to_eigen(const vf::Csr<double> &A) {
     Mat E = Mat::Zero(A.n, A.m);
@@ -270,6 +338,23 @@ inline Tape expand_tape(Tape &t, size_t words) {
     std::vector<uint32_t> w(words);
     for (size_t i = 0; i < words; ++i) { s += 0x9E3779B97F4A7C15ULL; uint64_t z = s; z = (z ^ (z >> 30)) * 0xBF58476D1CE4E5B9ULL; z = (z ^ (z >> 27)) * 0x94D049BB133111EBULL; w[i] = static_cast<uint32_t>((z ^ (z >> 31)) >> 16); }
     return Tape(w);
+}
+
+// A generated M-matrix case.  The MAIN tape carries only the size class, the size bound inside the class, the graph
+// family and one seed word; the bulk (edges, weights, shifts) is decoded by vf::gen_graph / vf::gen_mmat from a sub-tape
+// expanded from that seed.  cls_of_word maps the class word (0 .. size-1) to a class index, class k has n <= hi[k].
+struct GenMat { vf::Graph g; vf::Csr<double> A; vf::MmatInfo mi; int cls = 0; int nmax = 1; };
+inline GenMat gen_mmat_case(Tape &t, const std::vector<int> &cls_of_word, const std::vector<int> &lo, const std::vector<int> &hi,
+                            double max_contrast, bool aniso, int fam_lo = 0, int fam_hi = 9) {
+    GenMat m;
+    m.cls = cls_of_word[t.pick(cls_of_word.size())];                       // word 0 -> first (smallest) class
+    m.nmax = lo[m.cls] + static_cast<int>(t.u(0, hi[m.cls] - lo[m.cls]));  // word 0 -> lower end of the class
+    int fam = static_cast<int>(t.u(fam_lo, fam_hi));
+    Tape sub = expand_tape(t, 64 + 40 * static_cast<size_t>(m.nmax));
+    m.g = vf::gen_graph(sub, m.nmax, fam, fam);
+    m.A = vf::gen_mmat(sub, m.g, max_contrast, aniso, &m.mi);
+    t.mix(sub.h);
+    return m;
 }
 
 inline double norm2(const std::vector<double> &x) { long double s = 0; for (double v : x) s += static_cast<long double>(v) * v; return static_cast<double>(std::sqrt(s)); }
